@@ -139,6 +139,46 @@ def planted(task):
             if task["where"] == "adjacent":
                 for m in drv.names:
                     drv.write_adjacent(m, None)
+        # "a second process still writing": the index GROWS while readers look at it (truncated, then a hundred bytes every other
+        # millisecond, over and over) -- every default open during that time returns the ideal tree
+        if task["where"] in ("local", "both") and task["part"] == 0 and not out["bad"]:
+            import threading
+            import time as _t
+
+            stop = threading.Event()
+
+            def grow():
+                while not stop.is_set():
+                    for m in drv.names:
+                        pth = drv.expected_local_path(m)
+                        with open(pth, "wb", buffering=0) as f:
+                            for off in range(0, len(docs[m]), 110):
+                                f.write(docs[m][off:off + 110])
+                                _t.sleep(0.002)
+                                if stop.is_set():
+                                    break
+
+            th = threading.Thread(target=grow, daemon=True)
+            th.start()
+            try:
+                t_end = _t.time() + (3 if task["quick"] else 20)
+                n_open = 0
+                while _t.time() < t_end and not out["bad"]:
+                    n_open += 1
+                    try:
+                        tree = ceos_alos2.open_alos2(drv.url)
+                        d = project.diff(ref, project.fingerprint(tree))
+                        if d:
+                            out["bad"].append(("growing-wrong-tree", -1, f"default open #{n_open} while the index in the user cache directory is being (re)written slowly: different tree: {d[:2]}"))
+                    except BaseException as e:  # noqa: B902
+                        out["bad"].append(("growing-raises", -1, f"default open #{n_open} while the index in the user cache directory is being (re)written slowly raised {type(e).__name__}: {str(e)[:120]}"))
+                out["n"] += n_open
+            finally:
+                stop.set()
+                th.join(10)
+                for m in drv.names:   # leave complete documents behind
+                    with open(drv.expected_local_path(m), "wb") as f:
+                        f.write(docs[m])
     finally:
         drv.close()
     return out
